@@ -107,10 +107,14 @@ impl Mul<f64> for Duration {
         let mut new_val = q;
         let ten: f64 = 10.0;
 
+        // The search is bounded so that 10^p always fits in an i128: a factor which still has a
+        // fractional part by then (a tiny or a non finite one) is truncated.
+        const MAX_PRECISION: i32 = 38;
+
         loop {
             #[cfg(feature = "verif-hooks")]
             crate::verif_hooks::tick("Duration*f64");
-            if (new_val.floor() - new_val).abs() < f64::EPSILON {
+            if new_val.fract() == 0.0 || p >= MAX_PRECISION {
                 // Yay, we've found the precision of this number
                 break;
             }
@@ -121,7 +125,7 @@ impl Mul<f64> for Duration {
         }
 
         Duration::from_total_nanoseconds(
-            self.total_nanoseconds()
+            self.exact_total_nanoseconds()
                 .saturating_mul(new_val as i128)
                 .saturating_div(10_i128.pow(p.try_into().unwrap())),
         )
